@@ -401,6 +401,9 @@ def run(ctx):
                   "hook_faults": "every single invocation x 2 kinds", "features": 2}
     ctx.sweep(run_case, runcases.step_cases(ctx.tier), chunk=48, name="programs x outcomes x configs")
     ctx.sweep(run_case, runcases.fault_cases(ctx.tier), chunk=48, name="single hook/cleanup faults")
+    ctx.sweep(run_case, (c for c in runcases.nonpass_fault_cases(ctx.tier, outcomes=("pending", "skip", "undefined", "fail"))
+                         if P.size(c[0][0]) <= (2 if ctx.quick else 4)), chunk=48,
+              name="one non-passing step, then a hook fault at every invocation")
     ctx.sweep(run_case, runcases.excclass_cases(ctx.tier), chunk=48,
               name="exception classes around every except clause of Step.run, with and without @wip")
     ctx.sweep(run_case, runcases.combo_cases(ctx.tier), chunk=48,
